@@ -1,6 +1,7 @@
 package main
 
 import (
+	"strconv"
 	"fmt"
 	"go/constant"
 	"go/types"
@@ -150,6 +151,11 @@ func propC11(w *World, r *Report) {
 			}
 			nOK++
 			var mc, bg []string
+			var mcPieces []string
+			wantPieces := []string{}
+			if yamlF >= 0 {
+				wantPieces = []string{"main.CPTVFileRecorder." + st.Field(yamlF).Name() + recv, `"triggeredthresh: "`, "dec(" + se.termOf(start.Params[2]).String() + ")", `"\n"`}
+			}
 			lastStore, wh := -1, -1
 			for idx, in := range p.Instrs {
 				switch x := in.(type) {
@@ -166,6 +172,7 @@ func propC11(w *World, r *Report) {
 					switch name {
 					case "MotionConfig":
 						mc = append(mc, t)
+						mcPieces = strPieces(p.Term(se, x.Val))
 						lastStore = idx
 					case "BackgroundFrame":
 						bg = append(bg, t)
@@ -182,7 +189,7 @@ func propC11(w *World, r *Report) {
 				}
 			}
 			gotMC, gotBG = strings.Join(mc, " | "), strings.Join(bg, " | ")
-			if !(len(mc) == 1 && wantMC != "" && mc[0] == wantMC) {
+			if !(len(mc) == 1 && wantMC != "" && (mc[0] == wantMC || mcPieces != nil && strings.Join(mcPieces, "‖") == strings.Join(wantPieces, "‖"))) {
 				okMC = false
 			}
 			if !(len(bg) >= 1 && bg[0] == wantBG) {
@@ -216,9 +223,10 @@ func propC11(w *World, r *Report) {
 	}
 	he := newTermEnv(w)
 	hi := "global:main.headerInfo"
+	canonCam := camCanon(w, ci2.setup)
 	nSites := 0
 	var loadCall *ssa.Call
-	for _, b := range ci2.fn.Blocks {
+	for _, b := range ci2.setup.Blocks {
 		for _, in := range b.Instrs {
 			c, ok := in.(*ssa.Call)
 			if !ok {
@@ -230,39 +238,83 @@ func propC11(w *World, r *Report) {
 		}
 	}
 	var built []*ssa.Call
-	for _, b := range ci2.fn.Blocks {
+	// the calls of the set-up part: its own, and those of a wiring helper it calls once (a same-package function that
+	// is handed the configuration / camera / recorders; its parameters are read as the arguments of that one call)
+	type famCall struct {
+		c    *ssa.Call
+		env  *termEnv
+		site *ssa.Call // the instruction of the set-up function through which c runs
+		fn   *ssa.Function
+	}
+	var fam []famCall
+	for _, b := range ci2.setup.Blocks {
 		for _, in := range b.Instrs {
 			c, ok := in.(*ssa.Call)
 			if !ok {
 				continue
 			}
-			callee := c.Call.StaticCallee()
-			if inner := ctorCallIn(ci2.fn, c, ctor); inner != nil {
-				nSites++
-				built = append(built, c)
-				var args []string
-				for _, a := range inner.Call.Args {
-					args = append(args, he.termOf(a).String())
-				}
-				want := []string{he.termOf(ci2.fn.Params[1]).String(), hi, "headers.HeaderInfo.Brand(" + hi + ")", "headers.HeaderInfo.Model(" + hi + ")", "headers.HeaderInfo.CameraSerial(" + hi + ")", "headers.HeaderInfo.Firmware(" + hi + ")"}
-				r.Check(strings.Join(args, " ; ") == strings.Join(want, " ; "), "H1", fmt.Sprintf("recorder construction site #%d passes (conf, headerInfo, Brand, Model, CameraSerial, Firmware)", nSites), w.InstrPos(c), strings.Join(args, " ; "))
+			fam = append(fam, famCall{c, he, c, ci2.setup})
+			h := c.Call.StaticCallee()
+			if h == nil || h.Pkg != ci2.setup.Pkg || h.Parent() != nil || len(h.Blocks) == 0 || h == ci2.fn || len(w.callersOf(h)) != 1 || ctorCallIn(ci2.setup, c, ctor) != nil {
+				continue
 			}
-			if callee != nil && callee.Name() == "NewMotionProcessor" {
-				built = append(built, c)
-				// shares conf
-				a1, a2 := he.termOf(c.Call.Args[1]).String(), he.termOf(c.Call.Args[2]).String()
-				p := he.termOf(ci2.fn.Params[1]).String()
-				r.Check(a1 == "addr(main.Config.Motion@"+p+")" && a2 == "addr(main.Config.Recorder@"+p+")" && he.termOf(c.Call.Args[6]).String() == hi, "H4", "the processor is built from the same config object's motion and recorder settings and the connection's camera description", w.InstrPos(c), a1+" ; "+a2)
+			nCalls := 0
+			for _, b2 := range ci2.setup.Blocks {
+				for _, in2 := range b2.Instrs {
+					if c2, ok := in2.(*ssa.Call); ok && c2.Call.StaticCallee() == h {
+						nCalls++
+					}
+				}
+			}
+			if nCalls != 1 {
+				continue
+			}
+			ce := he.child()
+			for i, p := range h.Params {
+				if i < len(c.Call.Args) {
+					ce.bind[p] = he.termOf(c.Call.Args[i])
+				}
+			}
+			for _, hb := range h.Blocks {
+				for _, hin := range hb.Instrs {
+					if hc, ok := hin.(*ssa.Call); ok {
+						fam = append(fam, famCall{hc, ce, c, h})
+					}
+				}
 			}
 		}
 	}
-	r.Check(nSites == 3, "H1", "three recorder construction sites (motion, continuous, test)", w.Pos(ci2.fn.Pos()), fmt.Sprint(nSites))
+	for _, fc := range fam {
+		{
+			c, he := fc.c, fc.env
+			callee := c.Call.StaticCallee()
+			if inner := ctorCallIn(fc.fn, c, ctor); inner != nil {
+				nSites++
+				built = append(built, fc.site)
+				var args []string
+				fe := factoryEnv(he, c, inner)
+				for _, a := range inner.Call.Args {
+					args = append(args, canonCam(fe.termOf(a).String()))
+				}
+				want := []string{he.termOf(ci2.setup.Params[1]).String(), hi, "headers.HeaderInfo.Brand(" + hi + ")", "headers.HeaderInfo.Model(" + hi + ")", "headers.HeaderInfo.CameraSerial(" + hi + ")", "headers.HeaderInfo.Firmware(" + hi + ")"}
+				r.Check(strings.Join(args, " ; ") == strings.Join(want, " ; "), "H1", fmt.Sprintf("recorder construction site #%d passes (conf, headerInfo, Brand, Model, CameraSerial, Firmware)", nSites), w.InstrPos(c), strings.Join(args, " ; "))
+			}
+			if callee != nil && callee.Name() == "NewMotionProcessor" {
+				built = append(built, fc.site)
+				// shares conf
+				a1, a2 := he.termOf(c.Call.Args[1]).String(), he.termOf(c.Call.Args[2]).String()
+				p := he.termOf(ci2.setup.Params[1]).String()
+				r.Check(a1 == "addr(main.Config.Motion@"+p+")" && a2 == "addr(main.Config.Recorder@"+p+")" && canonCam(he.termOf(c.Call.Args[6]).String()) == hi, "H4", "the processor is built from the same config object's motion and recorder settings and the connection's camera description", w.InstrPos(c), a1+" ; "+a2)
+			}
+		}
+	}
+	r.Check(nSites == 3, "H1", "three recorder construction sites (motion, continuous, test)", w.Pos(ci2.setup.Pos()), fmt.Sprint(nSites))
 	// H4
 	if loadCall == nil {
-		r.Fail("H4", "camera-model motion defaults are loaded", w.Pos(ci2.fn.Pos()), "no LoadMotionConfig call in the connection handler", "")
+		r.Fail("H4", "camera-model motion defaults are loaded", w.Pos(ci2.setup.Pos()), "no LoadMotionConfig call in the connection handler", "")
 	} else {
-		arg := he.termOf(loadCall.Call.Args[1]).String()
-		r.Check(arg == "headers.HeaderInfo.Model("+hi+")" && he.termOf(loadCall.Call.Args[0]).String() == he.termOf(ci2.fn.Params[1]).String(), "H4", "motion config loaded for the connected camera's model into the shared config", w.InstrPos(loadCall), arg)
+		arg := canonCam(he.termOf(loadCall.Call.Args[1]).String())
+		r.Check(arg == "headers.HeaderInfo.Model("+hi+")" && he.termOf(loadCall.Call.Args[0]).String() == he.termOf(ci2.setup.Params[1]).String(), "H4", "motion config loaded for the connected camera's model into the shared config", w.InstrPos(loadCall), arg)
 		okDom := true
 		for _, c := range built {
 			if !(loadCall.Block() == c.Block() && instrIndex(loadCall) < instrIndex(c) || loadCall.Block() != c.Block() && loadCall.Block().Dominates(c.Block())) {
@@ -302,7 +354,7 @@ func propC11(w *World, r *Report) {
 	}
 	// "every frame of the finished file is a frame that was sent": header and frames come through one buffered reader
 	if ci3 := analyseHandleConn(w); ci3.err == nil {
-		checkSingleBufferedReader(w, r, newTermEnv(w), "H1", "the camera description and every recorded frame are read through the same bufio.Reader", ci3.fn, ci3.hdrCall, []*ssa.Call{ci3.probe, ci3.rest})
+		checkSingleBufferedReader(w, r, newTermEnv(w), "H1", "the camera description and every recorded frame are read through the same bufio.Reader", ci3.handlerFuncs(), ci3.hdrCall, []*ssa.Call{ci3.probe, ci3.rest}, ci3.inSetup)
 	}
 	checkHeaderInfoGetters(w, r)
 	checkConfigMapping(w, r)
@@ -336,7 +388,26 @@ func checkHeaderInfoGetters(w *World, r *Report) {
 				continue
 			}
 			c, ok := s.Val.(*ssa.Call)
-			if !ok || len(c.Call.Args) != 1 {
+			if !ok {
+				continue
+			}
+			// the look-up inside a small accessor that is handed the key: accessor(key) / table.accessor(key)
+			if callee := c.Call.StaticCallee(); callee != nil && len(callee.Blocks) > 0 && w.IsRepoFunc(callee) {
+				for ai, a := range c.Call.Args {
+					k, isC := a.(*ssa.Const)
+					if !isC || k.Value == nil || k.Value.Kind() != constant.String || ai >= len(callee.Params) {
+						continue
+					}
+					for _, cb := range callee.Blocks {
+						for _, cin := range cb.Instrs {
+							if lk, isLk := cin.(*ssa.Lookup); isLk && lk.Index == ssa.Value(callee.Params[ai]) {
+								fieldKey[fa.Field] = constant.StringVal(k.Value)
+							}
+						}
+					}
+				}
+			}
+			if len(c.Call.Args) != 1 {
 				continue
 			}
 			lk, ok := c.Call.Args[0].(*ssa.Lookup)
@@ -421,6 +492,18 @@ func checkConfigMapping(w *World, r *Report) {
 		sort.Strings(ks)
 		for _, k := range ks {
 			g := got[k]
+			if len(g) == 0 && strings.HasPrefix(tb.want[k], "local:") {
+				// the section decoded straight into the field (Unmarshal(key, &conf.K)) instead of through a local
+				for _, b := range fn.Blocks {
+					for _, in := range b.Instrs {
+						if c, ok := in.(*ssa.Call); ok && calleeName(c) == "config.Config.Unmarshal" {
+							if fa, ok := unwrapIface(c.Call.Args[2]).(*ssa.FieldAddr); ok && structOf(fa.X.Type()) != nil && structOf(fa.X.Type()).Field(fa.Field).Name() == k && typeIs(fa.X.Type(), tb.typPkg, tb.typ) && "local:"+typeShort(fa.Type()) == tb.want[k] {
+								g = []string{tb.want[k]}
+							}
+						}
+					}
+				}
+			}
 			r.Check(len(g) == 1 && g[0] == tb.want[k], "H3", tb.typ+"."+k+" <- like-named go-config setting", w.Pos(fn.Pos()), strings.Join(g, " | ")+" (want "+tb.want[k]+")")
 		}
 		// composite settings
@@ -535,10 +618,10 @@ func checkParserSelection(w *World, r *Report, ci *connInfo) {
 	r.Check(len(paths) == 5, "H5", "five selection outcomes", w.Pos(sel.Pos()), fmt.Sprint(len(paths)))
 	// the handler refuses an unknown camera before building anything and passes the selected parser on
 	he := newTermEnv(w)
-	for _, b := range ci.fn.Blocks {
+	for _, b := range ci.setup.Blocks {
 		for _, in := range b.Instrs {
 			if c, ok := in.(*ssa.Call); ok && c.Call.StaticCallee() != nil && c.Call.StaticCallee().Name() == "NewMotionProcessor" {
-				t := he.termOf(c.Call.Args[0]).String()
+				t := camCanon(w, ci.setup)(he.termOf(c.Call.Args[0]).String())
 				hi := "global:main.headerInfo"
 				r.Check(strings.HasSuffix(t, "."+sel.Name()+"(headers.HeaderInfo.Brand("+hi+"), headers.HeaderInfo.Model("+hi+"))"), "H5", "the processor parses with the parser selected for headerInfo's brand and model", w.InstrPos(c), t)
 				gs := he.guardsOf(b)
@@ -552,4 +635,107 @@ func checkParserSelection(w *World, r *Report, ci *connInfo) {
 			}
 		}
 	}
+}
+
+// strPieces: a string-valued term as the sequence of pieces it concatenates — constants (adjacent ones merged), values,
+// and dec(x) for a decimal rendering of an integer — through +, fmt.Sprintf with a constant format made of %s/%d/%v
+// verbs, strconv.Itoa / FormatInt / FormatUint (base 10) and fmt.Sprint of one value. nil when the term has another form.
+func strPieces(t *Term) []string {
+	var out []string
+	push := func(p string) {
+		if n := len(out); n > 0 && strings.HasPrefix(p, `"`) && strings.HasPrefix(out[n-1], `"`) {
+			a, _ := strconv.Unquote(out[n-1])
+			b, _ := strconv.Unquote(p)
+			out[n-1] = strconv.Quote(a + b)
+			return
+		}
+		out = append(out, p)
+	}
+	stripConv := func(x *Term) *Term {
+		for (x.Op == "call" || x.Op == "conv" || x.Op == "trunc") && len(x.Args) == 1 && (x.Op != "call" || strings.HasPrefix(x.Name, "convert")) {
+			x = x.Args[0]
+		}
+		return x
+	}
+	var walk func(x *Term) bool
+	walk = func(x *Term) bool {
+		if _, ok := constString(x); ok {
+			push(x.Name)
+			return true
+		}
+		switch {
+		case x.Op == "concat" && len(x.Args) == 2:
+			return walk(x.Args[0]) && walk(x.Args[1])
+		case x.Op == "call" && strings.HasSuffix(x.Name, "fmt.Sprintf") && len(x.Args) == 2 && x.Args[1].Op == "list":
+			f, ok := constString(x.Args[0])
+			if !ok {
+				return false
+			}
+			args := x.Args[1].Args
+			ai := 0
+			for len(f) > 0 {
+				i := strings.IndexByte(f, '%')
+				if i < 0 {
+					push(strconv.Quote(f))
+					break
+				}
+				if i > 0 {
+					push(strconv.Quote(f[:i]))
+				}
+				if i+1 >= len(f) || ai >= len(args) {
+					return false
+				}
+				switch f[i+1] {
+				case 's':
+					push(args[ai].String())
+				case 'd':
+					push("dec(" + stripConv(args[ai]).String() + ")")
+				default:
+					return false
+				}
+				ai++
+				f = f[i+2:]
+			}
+			return ai == len(args)
+		case x.Op == "call" && (strings.HasSuffix(x.Name, "strconv.FormatUint") || strings.HasSuffix(x.Name, "strconv.FormatInt")) && len(x.Args) == 2 && x.Args[1].String() == "10":
+			push("dec(" + stripConv(x.Args[0]).String() + ")")
+			return true
+		case x.Op == "call" && strings.HasSuffix(x.Name, "strconv.Itoa") && len(x.Args) == 1:
+			push("dec(" + stripConv(x.Args[0]).String() + ")")
+			return true
+		}
+		push(x.String())
+		return true
+	}
+	if !walk(t) {
+		return nil
+	}
+	return out
+}
+
+// camCanon: the camera description of a connection is the value the handler reads with headers.ReadHeaderInfo and
+// publishes in the package variable headerInfo (its only store in the program). Code of the handler may use either the
+// variable or the local it was stored from; terms are compared after rewriting the local's term to the variable.
+func camCanon(w *World, setup *ssa.Function) func(string) string {
+	e := newTermEnv(w)
+	var vals []string
+	n := 0
+	for _, fn := range w.RepoFuncs() {
+		for _, b := range fn.Blocks {
+			for _, in := range b.Instrs {
+				if st, ok := in.(*ssa.Store); ok {
+					if g, ok := st.Addr.(*ssa.Global); ok && g.Name() == "headerInfo" && g.Pkg == setup.Pkg {
+						n++
+						if fn == setup {
+							vals = append(vals, e.termOf(st.Val).String())
+						}
+					}
+				}
+			}
+		}
+	}
+	if n != 1 || len(vals) != 1 || !strings.Contains(vals[0], "headers.ReadHeaderInfo(") {
+		return func(t string) string { return t }
+	}
+	return func(t string) string { return strings.ReplaceAll(t, vals[0], "global:main.headerInfo") }
 }
